@@ -1,6 +1,10 @@
 mod common;
 mod kv;
 mod listen;
+mod mtu;
+mod statebuild;
+mod props;
+mod select;
 mod util;
 mod wire;
 
@@ -99,43 +103,22 @@ fn main() {
         std::process::exit(code);
     }
 
-    let report = match prop.as_str() {
-        "C06" => {
-            let mut r = Report::new(
-                "cases = operation sequences on one node's own namespace (exhaustive up to the stated length over a 16-op alphabet, then random to length 40, then a two-node replica variant); \
-                 non-trivial = the sequence contains a GC pass that collected something while a younger marked entry survived, or a set/delete of an already marked key, or (replica) a reset or replica-side collection; distinct = by op sequence",
-            );
-            r.assume("keys/values from small alphabets incl. empty and multi-byte; grace period 10 s; virtual clock");
-            r.assume("whether deleting an already deleted key, or delete-after-ttl on an already marked key, allocates a version is left open by the statement: both accepted");
-            kv::run(&ctx, &mut r, "C06");
-            r
-        }
-        "C15" => {
-            let mut r = Report::new(
-                "cases = (subscription set, event history) on an owner and a replica: every key of length <= 3 over {a,b,é,😀} set locally then gossiped, under pseudo-random subscription sets, plus random histories (set/ttl/delete/gossip/stale redelivery/owner GC/drop/late subscribe); \
-                 non-trivial = a written key starts with a multi-byte character, or >= 2 active matching subscriptions of different prefix lengths, or a handle was dropped mid-history; distinct = by case",
-            );
-            r.assume("a set to the same value with a different status (plain vs TTL) may or may not notify; re-delivery of identical entries after a reset may or may not notify");
-            listen::run(&ctx, &mut r);
-            r
-        }
-        _ => {
-            eprintln!("unknown property {prop}");
-            std::process::exit(2);
-        }
+    // Watchdog: a hang is inconclusive (exit 2), never a violation.
+    let budget_s: u64 = std::env::var("VERIF_WATCHDOG_S").ok().and_then(|s| s.parse().ok()).unwrap_or(tier.pick(2400, 6 * 3600));
+    let prop_for_watchdog = prop.clone();
+    std::thread::spawn(move || {
+        std::thread::sleep(std::time::Duration::from_secs(budget_s));
+        println!("INCONCLUSIVE property={prop_for_watchdog} watchdog fired after {budget_s} s");
+        std::process::exit(2);
+    });
+    let Some(report) = props::run_property(&ctx) else {
+        eprintln!("unknown property {prop}");
+        std::process::exit(2);
     };
     let code = finish(&ctx, report, started);
     std::process::exit(code);
 }
 
 fn dispatch_replay(ctx: &Ctx, sub: &str, case: &serde_json::Value) -> SubResult {
-    match ctx.prop.as_str() {
-        "C06" => kv::replay(ctx, sub, case, "C06"),
-        "C15" => listen::replay(ctx, sub, case),
-        _ => {
-            let mut r = SubResult::default();
-            r.inconclusive.push(format!("no replay handler for {}", ctx.prop));
-            r
-        }
-    }
+    props::replay_property(ctx, sub, case)
 }
